@@ -6,9 +6,10 @@ import LDEval.Obligations.Expected
 
 namespace LD.Obligations
 
-/-- The recursion bookkeeping (`evaluationStack`) is passed by value everywhere — never by pointer,
-never stored in a field, never returned: this is what makes the model's immutable chains faithful. -/
-theorem stack_by_value : Generated.stackParamTypes = ["evaluation.evaluationStack"] := rfl
-theorem stack_fields : Generated.stackFields = Expected.stackFields := rfl
+/-- The recursion bookkeeping (the ‹stack› struct: two `[]string` chains) is passed by value
+everywhere — never by pointer, never as a receiver, never stored in a field: this is what makes the
+model's immutable chains faithful. -/
+theorem stack_by_value : Generated.stackPassing = ["parameter or result of type ‹stack›"] := rfl
+theorem stack_fields : Generated.stackFieldTypes = ["[]string", "[]string"] := rfl
 
 end LD.Obligations
